@@ -1,7 +1,7 @@
 #!/bin/bash
 # run every check's quick (or $1) tier on the current tree; summary on stdout
 tier=${1:-quick}
-cd /verif
+cd "$(dirname "$0")/.."
 for p in C01 C02 C03 C04 C05 C06 C07 C08 C09 C10 C11 C12 C13 C14 C15 C16; do
   out=$(./check $p --tier $tier 2>&1); rc=$?
   echo "$p rc=$rc $(echo "$out" | grep -E "^C[0-9]+ (quick|thorough)" | tail -1)"
